@@ -23,6 +23,7 @@ HArgs == << Ag("i", Nm("In")) >>
 InFields == << Ag("r", Nn(Nm("Int"))), Ag("l", Li(Nm("Int"))), Ag("n", Nm("In")), Ag("e", Nm("E")) >>
 FArgs == << Ag("a", Nm("Int")), AgD("b", Nm("String"), [t |-> "str", v |-> "d"]) >>
 GArgs == << Ag("r", Nn(Nm("Int"))) >>
+ZArgs == << Ag("a", Nm("Sz")) >>
 
 NoFields == [x \in {} |-> 0]
 Leafish(k) == [kind |-> k, fields |-> NoFields, possible |-> {}, possibleSeq |-> <<>>, values |-> <<>>, way |-> ""]
@@ -40,7 +41,8 @@ TypesExec == [
                  a |-> Rs(Nm("A")), p |-> Rs(Nm("P")), np |-> Rs(Nn(Nm("P"))), lp |-> Rs(Li(Nm("P"))), lnp |-> Rs(Nn(Li(Nn(Nm("P"))))), u |-> Rs(Nm("U")), lu |-> Rs(Li(Nn(Nm("U")))),
                  s |-> Rs(Nm("String")), sn |-> Rs(Nn(Nm("String"))), i |-> Rs(Nm("Int")), e |-> Rs(Nm("E")),
                  le |-> Rs(Li(Nm("E"))), ls |-> Rs(Li(Nn(Nm("String")))), fl |-> Rs(Nm("Float")), lfl |-> Rs(Li(Nn(Nm("Float")))), idf |-> Rs(Nm("ID")), bo |-> Rs(Nm("Boolean")),
-                 f |-> RsA(Nm("String"), FArgs), g |-> RsA(Nm("String"), GArgs), h |-> RsA(Nm("String"), HArgs) ]],
+                 f |-> RsA(Nm("String"), FArgs), g |-> RsA(Nm("String"), GArgs), h |-> RsA(Nm("String"), HArgs),
+                 fz |-> RsA(Nm("String"), ZArgs) ]],
   T |-> [kind |-> "OBJECT", possible |-> {"T"}, possibleSeq |-> <<"T">>, values |-> <<>>, way |-> "key", fields |-> TFields],
   P |-> [kind |-> "INTERFACE", possible |-> {"A", "B"}, possibleSeq |-> <<"A", "B">>, values |-> <<>>, way |-> "", fields |-> PFields],
   A |-> [kind |-> "OBJECT", possible |-> {"A"}, possibleSeq |-> <<"A">>, values |-> <<>>, way |-> "key",
@@ -51,6 +53,8 @@ TypesExec == [
     fields |-> [ s |-> Rs(Nm("String")), c |-> Rs(Nm("String")) ]],
   U |-> [kind |-> "UNION", possible |-> {"A", "C"}, possibleSeq |-> <<"A", "C">>, values |-> <<>>, way |-> "", fields |-> NoFields],
   E |-> [kind |-> "ENUM", possible |-> {}, possibleSeq |-> <<>>, values |-> <<"X", "Y">>, way |-> "", fields |-> NoFields],
+  \* an enum with look-alike value names (a misspelt value has several close matches)
+  Sz |-> [kind |-> "ENUM", possible |-> {}, possibleSeq |-> <<>>, values |-> <<"LARGE", "XLARGE", "XXLARGE", "XLARGER">>, way |-> "", fields |-> NoFields],
   Mutation |-> [kind |-> "OBJECT", possible |-> {"Mutation"}, possibleSeq |-> <<"Mutation">>, values |-> <<>>, way |-> "key",
     fields |-> [ m1 |-> Rs(Nm("T")), m2 |-> Rs(Nn(Nm("T"))), m3 |-> Rs(Nm("String")), m4 |-> Rs(Nn(Nm("String"))), ml |-> Rs(Li(Nm("T"))),
                  mg |-> RsA(Nm("String"), GArgs), mgn |-> RsA(Nn(Nm("String")), GArgs) ]],
